@@ -163,7 +163,11 @@ def generate(run_seed):
         files.append({"dir": rng.choice(dirs), "base": "f%d" % i, "kind": kind,
                       "ext": rng.choice(EXT[kind]), "doc_seed": rng.randrange(1 << 30)})
     tool = rng.choice(["odmlconvert", "odmlconvert", "odmltordf", "odmltordf", "formatconverter"])
-    run = {"tool": tool, "recursive": rng.random() < 0.5, "out": rng.choice(["given", "absent"])}
+    run = {"tool": tool, "recursive": rng.random() < 0.5, "out": rng.choice(["given", "absent"]),
+           # how the caller spells the input directory
+           "indir": rng.choice(["plain", "plain", "trailing-slash", "relative", "relative-slash"])}
+    if tool == "odmlconvert" and rng.random() < 0.35:
+        run["chain"] = True      # second tool run: odmltordf over the result of the first
     if tool == "formatconverter":
         run["target"] = rng.choice(FC_TARGETS)
         run["api"] = rng.choice(["convert", "convert_dir"])
@@ -236,6 +240,9 @@ def run_case(case):
         args = []
         old_cwd = os.getcwd()
         os.chdir(cwd)
+        indir_arg = {"plain": indir, "trailing-slash": indir + os.sep,
+                     "relative": os.path.join("..", "input"),
+                     "relative-slash": os.path.join("..", "input") + os.sep}[run.get("indir", "plain")]
         counter = {}
         outcome = ("ret", None)
         env.capture.take()
@@ -246,7 +253,7 @@ def run_case(case):
                         args.append("-r")
                     if run["out"] == "given":
                         args += ["-o", given]
-                    args.append(indir)
+                    args.append(indir_arg)
                     if tool == "odmlconvert":
                         from odml.scripts import odml_convert as mod
                     else:
@@ -256,14 +263,14 @@ def run_case(case):
                     from odml.tools.converters.format_converter import FormatConverter
                     out_dir = given if run["out"] == "given" else None
                     if run["api"] == "convert":
-                        args = [indir, run["target"]]
+                        args = [indir_arg, run["target"]]
                         if out_dir:
                             args += ["-out", out_dir]
                         if run["recursive"]:
                             args.append("-r")
                         FormatConverter.convert(args)
                     else:
-                        FormatConverter.convert_dir(indir, out_dir, run["recursive"], run["target"])
+                        FormatConverter.convert_dir(indir_arg, out_dir, run["recursive"], run["target"])
         except SystemExit as exc:
             outcome = ("exc", "SystemExit", str(exc.code))
         except Exception as exc:
@@ -275,6 +282,8 @@ def run_case(case):
         created, changed, removed = fsbox.diff(before, after)
         kinds = sorted(set(f["kind"] for f in case["tree"]))
         labels = [tool, "-r" if run["recursive"] else "flat", "out:" + run["out"]]
+        if run.get("indir", "plain") != "plain":
+            labels.append("indir:" + run["indir"])
         if tool == "formatconverter":
             labels.append("target:" + run["target"])
         for k in kinds:
@@ -358,6 +367,51 @@ def run_case(case):
                         vio = ("batch.isolates", "bad file %s%s is not named in the report" %
                                (f["base"], f["ext"]))
                         break
+        # (5) a second tool over the result of the first: odmltordf on the odmlconv_* directory
+        if vio is None and run.get("chain") and tool == "odmlconvert" and outcome[0] == "ret":
+            root = "given_out/" if run["out"] == "given" else "cwd/"
+            tops = sorted(set(p[len(root):].split("/")[0] for p in created if p.startswith(root)))
+            tops = [t for t in tops if t.startswith("odmlconv_")]
+            conv = sorted(p for p in created if after.get(p, ("",))[0] == "file" and p.endswith("_conv.xml"))
+            if tops and conv:
+                labels.append("chain:odmltordf")
+                stage1 = os.path.join(box, root, tops[0])
+                before2 = fsbox.snapshot(box)
+                os.chdir(cwd)
+                out2 = ("ret", None)
+                try:
+                    with fsbox.listing_order(streams.get("listing2"), box, counter):
+                        from odml.scripts import odml_to_rdf as mod2
+                        mod2.main((["-r"] if run["recursive"] else []) + [stage1])
+                except SystemExit as exc:
+                    out2 = ("exc", "SystemExit", str(exc.code))
+                except Exception as exc:
+                    out2 = ("exc", type(exc).__name__, str(exc)[:160])
+                finally:
+                    os.chdir(old_cwd)
+                after2 = fsbox.snapshot(box)
+                created2, changed2, removed2 = fsbox.diff(before2, after2)
+                res.log.append(jdump({"chain": "odmltordf", "outcome": list(out2[:2]),
+                                      "created": created2, "changed": changed2, "removed": removed2}))
+                touched_old = [p for p in changed2 + removed2 if p in before2] + \
+                    [p for p in created2 if p.startswith(root + tops[0] + "/")]
+                if out2[0] == "exc":
+                    vio = ("batch.isolates", "odmltordf over the odmlconvert result did not return "
+                           "normally: %s %s" % (out2[1], out2[2]))
+                elif touched_old:
+                    vio = ("batch.inputs-untouched", "the second tool changed its input tree: %r" %
+                           touched_old[:4])
+                else:
+                    names2 = set(os.path.basename(p) for p in created2)
+                    for p in conv:
+                        rel = p[len(root + tops[0]) + 1:]
+                        if "/" in rel and not run["recursive"]:
+                            continue
+                        want = os.path.basename(p)[:-4] + ".rdf"
+                        if want not in names2:
+                            vio = ("batch.complete", "valid 1.1 file %s (result of odmlconvert) got "
+                                   "no RDF output %s" % (os.path.basename(p), want))
+                            break
         if vio:
             res.violation = viol(vio[0], vio[1], tool, labels)
     return res
